@@ -93,6 +93,8 @@ import Sds.Proofs.Codec2
 import Sds.Proofs.LoadWF
 import Sds.Proofs.SerShapes
 import Sds.Proofs.GenEqLoad
+import Sds.Proofs.GenEqLoad2
+import Sds.Proofs.GenEqLoad3
 
 namespace Sds.C06
 open Sds Outcome
@@ -795,5 +797,23 @@ theorem loaders_on_small_streams (m : Mode) (es : Elems) (h : ∀ w ∈ es, w.to
 word: the vector and the rest of the stream -/
 example : Generated.gen_IntVector_load .checked (intVecC.ser (IntVec.ofList 13 [5, 8191, 77]) ++ [99])
     = ok (IntVec.ofList 13 [5, 8191, 77], [99]) := by decide +kernel
+
+/-! **The loaders of the run-length vector and of the wavelet-matrix core as translated from the source on this run**
+(`Generated/FnsLoad2.lean`, `FnsLoad3.lean`).  `RLVector::load`: the four `T::load(reader)?`, the block-count check, the
+three sample indexes rebuilt over `(0..sample_blocks).map(|block| samples.get(..))`, `len - ones`; `WMCore::load`: the width
+check, the `for _ in 0..width` loop loading one bitvector per level with the reader threaded through the loop state and the
+first level's length remembered in `len: Option<usize>`, `init_support`.  On every stream on which the header arithmetic
+stays inside `usize` (`RlOk`, `WmCoreOk`, in the style of the predicates above) the code as it is NOW is the `load` of the
+model codec; for the run-length vector in the checked build additionally "no stored sample has more ones than bits"
+(`RlNoUnderflow`, true of every library-written file) — without it both sides still panic, with different panic KINDS,
+because the model evaluates the zero column before the other two indexes and the source after (observation O16,
+`GenEq.rl_load_ne_order`; `rl_load_eq_iff` gives the exact condition). -/
+theorem rl_and_wm_core_loaders_as_translated_from_source (m : Mode) (es : Elems) :
+    (GenEq.RlOk es → GenEq.RlNoUnderflow es → Generated.gen_RLVector_load m es = (rlC m).load es) ∧
+    (GenEq.RlOk es → Generated.gen_RLVector_load .wrapping es = (rlC .wrapping).load es) ∧
+    (GenEq.WmCoreOk es → Generated.gen_WMCore_load m es = wmCoreC.load es) ∧
+    ((∀ w ∈ es, w.toNat < 2 ^ 32) → Generated.gen_WMCore_load m es = wmCoreC.load es) :=
+  ⟨GenEq.rl_load_eq_of_noUnderflow m es, GenEq.rl_load_eq_wrapping es, GenEq.wm_core_load_eq m es,
+   GenEq.wm_core_load_eq_small m es⟩
 
 end Sds.C06
